@@ -163,6 +163,24 @@ def rule_once(R):
              "the identifier is recorded only on the `not already pending` edge (a retransmission is acknowledged but "
              "neither recorded nor delivered again)", where=c.span)
     R.floor("once", len(pushes), 1, "recording sites")
+    # broker identifiers and client identifiers are separate spaces: nothing in the PUBLISH arm may consult the client's
+    # own in-flight tables (an inbound PUBLISH whose identifier happens to equal an unfinished outbound exchange is new)
+    _, p_entry, p_blocks = outq.handler_arm(f, "Publish")
+    foreign = []
+    for bb in sorted(p_blocks):
+        c = hb.calls.get(bb)
+        if c is None or bb not in hb.reachable:
+            continue
+        for t in f.call_targets(c):
+            if t in f.bodies:
+                touched = f.fields_touched(t)
+                hit = sorted(n_ for (a_, n_) in touched if a_ == OUTBOUND and n_ in ("retained", "pending_release"))
+                if hit:
+                    foreign.append((c, hit))
+    R.ob("once/inbound-identifier-space", not foreign,
+         "whether an inbound PUBLISH is new is decided from the pending *inbound* identifiers only%s"
+         % ("" if not foreign else ": `%s` in the PUBLISH arm reads the outbound table(s) %s" % (foreign[0][0].name(), foreign[0][1])),
+         where=foreign[0][0].span if foreign else hb.line(start))
     # capacity of the pending set is what CONNECT advertises as Receive Maximum
     _, hsb, hcode = roles.handshake(f)
     ok = False
